@@ -472,6 +472,31 @@ fn body_decls(out: &mut Vec<Decl>) {
         // without an `attrs` field it is harmless
         push(&format!("#[darling(attributes(a), {fw})] struct S {{ b: u8 }}"), vec![], &elem);
     }
+    // a blank value is a value: `rename = ""` conflicts with flatten and counts as a repetition
+    for blank in ["\"\"", "\" \"", "\"\\t\""] {
+        for pre in ["", a] {
+            let ds: &[usize] = if pre.is_empty() { &[0] } else { &elem };
+            let s1 = format!("{pre}struct S {{ #[darling(rename = {blank}, flatten)] x: u8, y: u8 }}");
+            push(&s1, vec![find(&s1, "flatten", 0)], ds);
+            let s2 = format!("{pre}struct S {{ #[darling(flatten, rename = {blank})] x: u8, y: u8 }}");
+            push(&s2, vec![find(&s2, &format!("rename = {blank}"), 0)], ds);
+            let s3 = format!("{pre}struct S {{ #[darling(rename = {blank})] #[darling(flatten)] x: u8, y: u8 }}");
+            push(&s3, vec![find(&s3, "flatten", 0)], ds);
+            let s4 = format!("{pre}struct S {{ #[darling(rename = {blank}, rename = \"b\")] x: u8, y: u8 }}");
+            push(&s4, vec![find(&s4, "rename = \"b\"", 0)], ds);
+            let s5 = format!("{pre}struct S {{ #[darling(rename = {blank})] x: u8, y: u8 }}");
+            push(&s5, vec![], ds);
+        }
+        let e1 = format!("enum E {{ A {{ #[darling(rename = {blank}, flatten)] x: u8 }}, #[darling(rename = {blank}, rename = \"b\")] B }}");
+        push(&e1, vec![find(&e1, "flatten", 0), find(&e1, "rename = \"b\"", 0)], &[0]);
+    }
+    // a body the trait cannot represent does not excuse the members' own violations
+    let t1 = "struct S(#[darling(zz)] u8, u8);";
+    push(t1, vec![find(t1, "zz", 0), None], &[0]);
+    let t2 = "struct S(#[darling(skip, skip)] u8, #[darling(rename = \"a\", flatten)] u8, u8);";
+    push(t2, vec![find(t2, "skip", 1), find(t2, "flatten", 0), None], &[0]);
+    let t3 = "struct S(#[darling(flatten)] u8, #[darling(flatten)] u8);";
+    push(t3, vec![find(t3, "flatten", 0), find(t3, "flatten", 1), None], &[0]);
     // on FromMeta `attrs` is an ordinary field
     push("struct S { attrs: u8, ident: u8 }", vec![], &[0]);
     // FromAttributes needs attributes(..)
